@@ -179,6 +179,19 @@ def send_case(rnd, host, size, script):
             if len(b"".join(rig.conn.sent)) <= seen:
                 break
             seen = len(b"".join(rig.conn.sent))
+            step = script[k % len(script)]
+            if isinstance(step, tuple):
+                # the peer does not answer the ENQ with EOT at once: NAK, noise, (to an equipment) its own ENQ come first.
+                # Each of these must be answered by another ENQ, never by the block
+                for junk in step[0]:
+                    rig.conn.feed(bytes([junk]))
+                    answers.append(junk)
+                    deadline = time.monotonic() + 5
+                    while len(b"".join(rig.conn.sent)) <= seen and time.monotonic() < deadline:
+                        time.sleep(0.0005)
+                    rig.settle(ignore_send_queue=True)
+                    seen = len(b"".join(rig.conn.sent))
+                step = step[1]
             rig.conn.feed(bytes([EOT]))
             answers.append(EOT)
             deadline = time.monotonic() + 5
@@ -186,7 +199,7 @@ def send_case(rnd, host, size, script):
                 time.sleep(0.0005)
             rig.settle(ignore_send_queue=True)
             seen = len(b"".join(rig.conn.sent))
-            a = {"ack": ACK, "nak": NAK}.get(script[k % len(script)], script[k % len(script)])
+            a = {"ack": ACK, "nak": NAK}.get(step, step)
             rig.conn.feed(bytes([a]))
             answers.append(a)
             rig.settle(ignore_send_queue=True)
@@ -303,13 +316,20 @@ def gen_cases(rnd, tier):
         elif c < 0.70:
             cases.append(("recv", host, [rnd.choice([0, 5, 50, 244])], -1))              # one corrupted byte
         else:
-            cases.append(("send", host, rnd.choice([0, 1, 100, 244, 245, 600]), [rnd.choice(["ack", "ack", "ack", "nak", 4, 0]) for _ in range(3)]))
+            cases.append(("send", host, rnd.choice([0, 1, 100, 244, 245, 600]),
+                          [(lambda a: a if rnd.random() < 0.7 else ([rnd.choice([0, 6, 21, 255] + ([] if host else [5])) for _ in range(rnd.choice([1, 1, 2]))], a))(
+                              rnd.choice(["ack", "ack", "ack", "nak", 4, 0])) for _ in range(3)]))
     for pos in (1, 2, 10, 11):
         cases.append(("recv", False, [8], pos))
     cases.append(("send", True, 500, ["ack", "nak"]))
     for host, size, script in [(False, 10, [4]), (True, 10, [0]), (False, 300, ["ack", 5]), (True, 0, ["nak"]), (False, 244, ["ack"])]:
         cases.append(("send", host, size, script))
     cases.append(("send", False, 500, ["ack", "ack", "ack"]))
+    # answers to ENQ that are not EOT (the block may only be started after EOT)
+    cases.append(("send", False, 10, [([NAK], "ack")]))
+    cases.append(("send", False, 300, [([5], "ack"), ([0, 6, 21], "ack")]))         # equipment: the host's own ENQ, noise, ACK, NAK
+    cases.append(("send", True, 300, [([21, 6], "ack"), ([4 + 1 + 1], "nak")]))
+    cases.append(("send", True, 10, [([0, 255, 6], "ack")]))
     # the length byte itself changed in transit: raised by 1 / 5 / to 255, lowered by 1 / 5 / to 0 / to 3 (below a header)
     for k, f in enumerate([lambda o: o + 1, lambda o: o + 5, lambda o: 255, lambda o: o - 1, lambda o: o - 5, lambda o: 0, lambda o: 3]):
         cases.append(("recvlen", k % 2 == 0, [0, 20, 100][k % 3], f))
